@@ -428,21 +428,45 @@ func genC06(d *Draw) Case {
 		g.connect(defs, cur, "T0", nil, -1)
 		cur = "T0"
 	}
+	acts := 1
+	if d.N(3) == 2 {
+		acts = 2 + d.N(2) // the gateway is re-entered through a loop
+	}
+	if acts > 1 {
+		g.addNode(&Node{ID: "LM", Kind: "xor"})
+		g.connect(defs, cur, "LM", nil, -1)
+		cur = "LM"
+		g.addNode(&Node{ID: "XM", Kind: "xor"})
+	}
 	g.addNode(&Node{ID: "EG", Kind: "evgw"})
 	g.connect(defs, cur, "EG", nil, -1)
 	for i := 0; i < na; i++ {
 		c := g.addNode(&Node{ID: fmt.Sprintf("C%d", i+1), Kind: "catch", Events: []EventDef{alts[i]}})
 		t := g.addNode(&Node{ID: fmt.Sprintf("T%d", i+1), Kind: "task", Results: []string{fmt.Sprintf("r_T%d", i+1)}})
-		e := g.addNode(&Node{ID: fmt.Sprintf("E%d", i+1), Kind: "end"})
 		g.connect(defs, "EG", c.ID, nil, -1)
 		g.connect(defs, c.ID, t.ID, nil, -1)
-		g.connect(defs, t.ID, e.ID, nil, -1)
+		if acts > 1 {
+			g.connect(defs, t.ID, "XM", nil, -1)
+		} else {
+			e := g.addNode(&Node{ID: fmt.Sprintf("E%d", i+1), Kind: "end"})
+			g.connect(defs, t.ID, e.ID, nil, -1)
+		}
+	}
+	if acts > 1 {
+		tc := g.addNode(&Node{ID: "TC", Kind: "task", Results: []string{"r_TC", "i_TC"}, Counter: "i_TC"})
+		g.connect(defs, "XM", tc.ID, nil, -1)
+		g.addNode(&Node{ID: "LS", Kind: "xor"})
+		g.connect(defs, "TC", "LS", nil, -1)
+		g.connect(defs, "LS", "LM", &Cond{LtVar: "i_TC", Lt: acts}, -1)
+		g.addNode(&Node{ID: "End", Kind: "end"})
+		df := g.connect(defs, "LS", "End", nil, -1)
+		g.Node("LS").Default = df.ID
 	}
 	g.index()
 	c := &ProcCase{Buf: d.N(17), Hold: d.N(3)}
 	// event plan: a non-empty sequence over the competing events (plus an occasional stranger)
-	ne := 1 + d.N(4)
-	conc := d.N(3) == 2
+	ne := 1 + d.N(4) + 2*(acts-1)
+	conc := d.N(3) == 2 && acts == 1
 	var evd []string
 	pool := append(append([]EventDef{}, alts[:na]...), EventDef{Kind: "signal", Ref: "sX"})
 	for i := 0; i < ne; i++ {
@@ -466,7 +490,7 @@ func genC06(d *Draw) Case {
 	}
 	c.Prog = &Program{Defs: defs, Vars: map[string]any{}, Tags: tags, Desc: fmt.Sprintf("event gateway with %d alternatives %v, events %v concurrent=%v", na, alts[:na], evd, conc)}
 	c.Picks = drawPicks(d, 32)
-	c.Meta = map[string]int{"conc": b2i(conc), "na": na}
+	c.Meta = map[string]int{"conc": b2i(conc), "na": na, "acts": acts}
 	return c
 }
 
@@ -526,7 +550,7 @@ func checkC06(cc Case, r *simrt.Result) *Outcome {
 			anyCompetitor = true
 		}
 	}
-	if quiesced {
+	if quiesced && c.Meta["acts"] <= 1 {
 		total := 0
 		for k, n := range branchReq {
 			total += n
@@ -558,6 +582,7 @@ func checkC06(cc Case, r *simrt.Result) *Outcome {
 	o.Tags = c.Prog.Tags
 	o.Nontrivial = r.Switches > 0
 	probe(o, "concurrent-delivery", c.Meta["conc"] == 1)
+	probe(o, "gateway-re-entered", c.Meta["acts"] > 1 && det > 1)
 	probe(o, "several-competitors-delivered", func() bool {
 		n := 0
 		for i := 1; i <= na; i++ {
